@@ -286,8 +286,8 @@ theorem findOne_scan2 (s : Str) (h : ScanOk2 s) (t : STok) (ht : inertClass t = 
   | lineBreak => exact absurd rfl hlb
   | math => cases ht
   | githubWiki => cases ht
-  | xwikiMacroStart => rfl
-  | xwikiMacroEnd => rfl
+  | xwikiMacroStart => cases ht
+  | xwikiMacroEnd => cases ht
 
 /-! ### `&` -/
 
